@@ -374,7 +374,10 @@ where
             sh.evaluations += 1;
             *sh.counters.entry("regression-plans".into()).or_insert(0) += 1;
             drop(sh);
-            if let Err(f) = exec(&case, Mode::Normal) {
+            // schedule-dependent plans (thread races) ask to be run several times
+            let repeat = v.get("repeat").and_then(|r| r.as_u64()).unwrap_or(1).max(1);
+            let outcome = (0..repeat).find_map(|_| exec(&case, Mode::Normal).err());
+            if let Some(f) = outcome {
                 println!("regression plan {} fails: {} — {}", p.display(), f.clause, f.detail);
                 violation_lines.push(format!("VIOLATION property={id} replay={}", p.display()));
                 shared.lock().unwrap().failures.push(FoundFailure {
